@@ -13,7 +13,9 @@ func header(suite Suite, _ kyber.Point, x kyber.Scalar,
 
 	// Encrypt the master scalar key with each public key in the set
 	S := suite.Point()
-	hdr := xb1
+	// copy: xb1 may be a prefix of the caller's ciphertext buffer, and appending
+	// to it would overwrite the very bytes this header is compared against
+	hdr := append([]byte{}, xb1...)
 	for i := range anonymitySet {
 		Y := anonymitySet[i]
 		S.Mul(x, Y) // compute DH shared secret
